@@ -604,9 +604,250 @@ pub mod fr {
         }};
     }
 
+    #[cfg(feature = "num-order")]
+    fn numfeed<T: num_order::NumHash>(x: &T) -> Vec<u8> {
+        let mut h = Rec::default();
+        x.num_hash(&mut h);
+        h.0
+    }
+    #[cfg(not(feature = "num-order"))]
+    fn numfeed<T>(_: &T) -> Vec<u8> {
+        vec![]
+    }
+
+    /// what is wrong with a float that must be the exact zero (None = fine): the representation must be
+    /// significand 0 with exponent 0 (exponent != 0 is the encoding of an infinity), `==`/`cmp` with ZERO in
+    /// both orders, ordered strictly between -1 and 1, same numeric hash feed as ZERO
+    fn zero_defect<R: dashu_float::round::Round, const B: Word>(v: &FBig<R, B>) -> Option<String> {
+        let z = FBig::<R, B>::ZERO;
+        let r = v.repr();
+        if !r.significand().is_zero() {
+            return Some(format!("signif={}", f_ibig(r.significand())));
+        }
+        if r.exponent() != 0 {
+            return Some(format!("unnormalized:repr=0e{}", r.exponent()));
+        }
+        if !(v == &z) || !(&z == v) {
+            return Some("ne-zero".into());
+        }
+        if v.partial_cmp(&z) != Some(Ordering::Equal) || z.partial_cmp(v) != Some(Ordering::Equal) || v.cmp(&z) != Ordering::Equal {
+            return Some("cmp-zero".into());
+        }
+        if v.partial_cmp(&FBig::<R, B>::ONE) != Some(Ordering::Less)
+            || v.partial_cmp(&FBig::<R, B>::NEG_ONE) != Some(Ordering::Greater)
+            || FBig::<R, B>::ONE.partial_cmp(v) != Some(Ordering::Greater)
+        {
+            return Some("not-between-units".into());
+        }
+        if numfeed(v) != numfeed(&z) {
+            return Some("numhash".into());
+        }
+        None
+    }
+
+    /// f.zero: exact zeros of several origins, every FBig producer in its by-value / by-reference /
+    /// compound-assignment forms applied to each of them
+    fn zero_routes<R: dashu_float::round::Round, const B: Word, const NB: Word>(p: usize, x: IBig, k: isize) -> Res {
+        use core::str::FromStr;
+        use dashu_base::SquareRoot;
+        type T<R, const B: Word> = FBig<R, B>;
+        let x = if x.is_zero() { IBig::ONE } else { x };
+        let a0 = T::<R, B>::from_parts(x.clone(), k);
+        // the non-zero operand at the requested precision (0 = unlimited)
+        let a = a0.clone().with_precision(p).value();
+        let zp = T::<R, B>::ZERO.with_precision(p).value();
+        let mut zeros: Vec<(&str, T<R, B>)> = vec![
+            ("lit", T::<R, B>::ZERO),
+            ("default", T::<R, B>::default()),
+            ("parts", T::<R, B>::from_parts(IBig::ZERO, k)),
+            ("fromint", T::<R, B>::from(IBig::ZERO)),
+            ("wp", zp.clone()),
+            ("sub", &a - &a),
+            ("subv", a.clone() - a.clone()),
+            ("addneg", &a + &(-a.clone())),
+            ("mul", &zp * &a),
+            ("mulrev", &a * &zp),
+            ("mullit", T::<R, B>::ZERO * a.clone()),
+            ("neglit", -T::<R, B>::ZERO),
+        ];
+        if let Ok(v) = T::<R, B>::from_str("0") {
+            zeros.push(("str", v));
+        }
+        {
+            let mut t = a.clone();
+            t -= &a;
+            zeros.push(("subasg", t));
+        }
+        let ks: [isize; 4] = [k, -k, 1, -3];
+        for (zn, z) in &zeros {
+            if let Some(d) = zero_defect(z) {
+                return Ok(format!("BAD {}:{}", zn, d));
+            }
+            let mut outs: Vec<(String, T<R, B>)> = vec![];
+            for s in ks {
+                outs.push((format!("shl.val{}", s), z.clone() << s));
+                outs.push((format!("shr.val{}", s), z.clone() >> s));
+                let mut t = z.clone();
+                t <<= s;
+                outs.push((format!("shl.asg{}", s), t));
+                let mut t = z.clone();
+                t >>= s;
+                outs.push((format!("shr.asg{}", s), t));
+                // chain (only from a sound intermediate: a broken one is reported by the entry above)
+                let mut t = z.clone();
+                t <<= s;
+                if zero_defect(&t).is_none() {
+                    t >>= s;
+                    outs.push((format!("shl.shr.asg{}", s), t));
+                }
+            }
+            outs.push(("mul.val".into(), z.clone() * a.clone()));
+            outs.push(("mul.ref".into(), z * &a));
+            outs.push(("mul.valref".into(), z.clone() * &a));
+            outs.push(("mul.refval".into(), z * a.clone()));
+            outs.push(("mul.rev".into(), &a * z));
+            {
+                let mut t = z.clone();
+                t *= a.clone();
+                outs.push(("mul.asg".into(), t));
+                let mut t = z.clone();
+                t *= &a;
+                outs.push(("mul.asgref".into(), t));
+                let mut t = a.clone();
+                t *= z;
+                outs.push(("mul.asgrev".into(), t));
+                let mut t = z.clone();
+                t *= 7i32;
+                outs.push(("mul.asgprim".into(), t));
+                let mut t = z.clone();
+                t *= Sign::Negative;
+                outs.push(("mul.asgsign".into(), t));
+            }
+            outs.push(("add0.val".into(), z.clone() + T::<R, B>::ZERO));
+            outs.push(("add0.ref".into(), z + &T::<R, B>::ZERO));
+            outs.push(("add0.rev".into(), T::<R, B>::ZERO + z));
+            outs.push(("addz.ref".into(), z + z));
+            outs.push(("sub0.val".into(), z.clone() - T::<R, B>::ZERO));
+            outs.push(("sub0.ref".into(), z - &T::<R, B>::ZERO));
+            outs.push(("subz.ref".into(), z - z));
+            {
+                let mut t = z.clone();
+                t += T::<R, B>::ZERO;
+                outs.push(("add0.asg".into(), t));
+                let mut t = z.clone();
+                t += &T::<R, B>::ZERO;
+                outs.push(("add0.asgref".into(), t));
+                let mut t = z.clone();
+                t += 0i32;
+                outs.push(("add0.asgprim".into(), t));
+                let mut t = z.clone();
+                t -= T::<R, B>::ZERO;
+                outs.push(("sub0.asg".into(), t));
+                let mut t = z.clone();
+                t -= z;
+                outs.push(("subz.asgref".into(), t));
+            }
+            outs.push(("neg.val".into(), -z.clone()));
+            outs.push(("neg.ref".into(), -z));
+            outs.push(("abs".into(), z.clone().abs()));
+            // inexact operations need a limited precision
+            if z.precision() > 0 || a.precision() > 0 {
+                outs.push(("div.ref".into(), z / &a));
+                outs.push(("div.val".into(), z.clone() / a.clone()));
+                let mut t = z.clone();
+                t /= &a;
+                outs.push(("div.asgref".into(), t));
+            }
+            outs.push(("sqr".into(), z.sqr()));
+            outs.push(("cubic".into(), z.cubic()));
+            if z.precision() > 0 {
+                outs.push(("sqrt".into(), z.sqrt()));
+                outs.push(("powi".into(), z.powi(IBig::from(3))));
+            }
+            outs.push(("trunc".into(), z.trunc()));
+            outs.push(("fract".into(), z.fract()));
+            outs.push(("floor".into(), z.floor()));
+            outs.push(("ceil".into(), z.ceil()));
+            outs.push(("round".into(), z.round()));
+            outs.push(("clone".into(), z.clone()));
+            {
+                let mut t = a.clone();
+                t.clone_from(z);
+                outs.push(("clone_from".into(), t));
+            }
+            for q in [0usize, 1, p + 3] {
+                outs.push((format!("with_precision{}", q), z.clone().with_precision(q).value()));
+            }
+            for (on, v) in &outs {
+                if let Some(d) = zero_defect(v) {
+                    return Ok(format!("BAD {}/{}:{}", zn, on, d));
+                }
+                if !(v == z) || v.partial_cmp(z) != Some(Ordering::Equal) {
+                    return Ok(format!("BAD {}/{}:ne-source", zn, on));
+                }
+            }
+            // other rounding mode / other base: the result has another type
+            if let Some(d) = zero_defect(&z.clone().with_rounding::<mode::Up>()) {
+                return Ok(format!("BAD {}/with_rounding:{}", zn, d));
+            }
+            // a zero of unlimited precision converts only between bases that are powers of one another
+            let related = {
+                let (lo, hi) = if B < NB { (B, NB) } else { (NB, B) };
+                let mut t = lo;
+                while t < hi {
+                    t *= lo;
+                }
+                t == hi
+            };
+            // (and with_base of a tiny precision asks for precision 0 = unlimited in the new base: the known
+            // tiny-precision panic, not this property's business)
+            if z.precision() >= 4 || related {
+                if let Some(d) = zero_defect(&z.clone().with_base::<NB>().value()) {
+                    return Ok(format!("BAD {}/with_base:{}", zn, d));
+                }
+                {
+                    let mut t = z.clone();
+                    t >>= 2isize;
+                    if let Some(d) = zero_defect(&t) {
+                        return Ok(format!("BAD {}/shr.asg2:{}", zn, d));
+                    }
+                    if let Some(d) = zero_defect(&t.with_base::<NB>().value()) {
+                        return Ok(format!("BAD {}/shr.asg.with_base:{}", zn, d));
+                    }
+                }
+                if let Some(d) = zero_defect(&z.clone().with_base_and_precision::<NB>(p + 2).value()) {
+                    return Ok(format!("BAD {}/with_base_and_precision:{}", zn, d));
+                }
+            }
+        }
+        let z = T::<R, B>::ZERO;
+        Ok(format!("{} {} zero-routes-agree", f_ibig(z.repr().significand()), f_dec(z.repr().exponent())))
+    }
+
     pub fn dispatch(op: &str, args: &[&str]) -> Option<Res> {
         Some((|| -> Res {
             match op {
+                // f.zero <base> d:p x d:k : exact zeros of every origin (literal, default, from_parts(0, k), a - a,
+                // 0 * a, -0, parsed; at precision p, 0 = unlimited; a = x*B^k) pushed through every producer form
+                // (<< >> <<= >>= by +-k, * *= by value / reference / primitive / Sign, + - += -= with zero, neg,
+                // abs, / /=, sqr, cubic, sqrt, powi, trunc/fract/floor/ceil/round, clone(_from), with_precision,
+                // with_rounding, with_base, with_base_and_precision): every result must be significand 0 with
+                // exponent 0, == / cmp Equal to ZERO in both orders, strictly between -1 and 1, same numeric hash
+                // -> `<signif> <exp> zero-routes-agree` | `BAD <zero>/<producer>:<what>`
+                "f.zero" => {
+                    let p = p_usize(arg(args, 1)?)?;
+                    let x = p_ibig(arg(args, 2)?)?;
+                    let k = p_isize(arg(args, 3)?)?;
+                    match arg(args, 0)? {
+                        "2" => zero_routes::<mode::Zero, 2, 16>(p, x, k),
+                        "2d" => zero_routes::<mode::HalfEven, 2, 10>(p, x, k),
+                        "10" => zero_routes::<mode::HalfAway, 10, 2>(p, x, k),
+                        "10c" => zero_routes::<mode::Down, 10, 100>(p, x, k),
+                        "16" => zero_routes::<mode::Zero, 16, 2>(p, x, k),
+                        "3" => zero_routes::<mode::Up, 3, 27>(p, x, k),
+                        b => Err(format!("bad-arg base {}", b)),
+                    }
+                }
                 // f.cmp <base> sa ea pa sb eb pb : two floats of the same base (rounding modes may
                 // differ: PartialOrd<FBig<R2,B>> for FBig<R1,B>)
                 "f.cmp" => match arg(args, 0)? {
